@@ -26,6 +26,14 @@
         plugin, evaluateTaskOnPredicates) in the running state followed by
         Statement.Allocate/Pipeline, which fires the allocate handler with the
         task's AcceptedResource; a refused task rolls the job back.
+    - pkg/scheduler/framework/statement.go: Commit / commitAllocate /
+        cleanupFailedAllocation / unallocate, as far as the usage counters are
+        concerned ([event], [do_event]): a successful Cache.Bind fires no
+        handler; a failing Cache.Bind makes the deferred
+        cleanupFailedAllocation un-allocate that one task (the deallocate
+        handlers fire once for it), after which Commit clears its operations
+        and returns -- the tasks bound before the failure and the tasks whose
+        operations come after it stay charged.
 
     Quantities are exact rationals ([Q]); Go computes in float64. Rounding of
     float64 arithmetic is not modelled (the correspondence check uses inputs on
@@ -248,13 +256,13 @@ Fixpoint walk_update (fuel : nat) (qs : list queue) (id : positive) (f : queue -
            end
   end.
 
-(** allocateHandlerFn / deallocateHandlerFn: the loop, then leafQueue.Name *)
+(** allocateHandlerFn / deallocateHandlerFn: the loop up the parent chain. A job
+    whose queue is not in the plugin's map charges nothing (since /repo 0ac7c83
+    the handlers return before the log line that dereferenced the missing leaf
+    queue; before that commit this case was a nil dereference). *)
 Definition handler (add : bool) (fuel : nat) (qs : list queue) (jq : positive) (preemptible : bool) (c : rq)
   : result (list queue) :=
-  match find_queue qs jq with
-  | None => Panic
-  | Some _ => walk_update fuel qs jq (bump add (negb preemptible) c)
-  end.
+  walk_update fuel qs jq (bump add (negb preemptible) c).
 Definition alloc_handler := handler true.
 Definition dealloc_handler := handler false.
 
@@ -352,6 +360,49 @@ Fixpoint run (fuel : nat) (s : state) (xs : list step) : result state :=
               | Panic => Panic
               end
   end.
+
+(** * Statement.Commit
+
+    What an action does with the statement that holds its decisions, seen from
+    the usage counters. [Decide x]: a decision simulated in a statement (the
+    steps above). [CommitOk]: Commit with every Cache.Bind succeeding
+    (Session.BindPod only moves the task to Binding; no handler fires).
+    [BindFail tid]: Commit in which Cache.Bind fails for task [tid]:
+    commitAllocate's deferred cleanupFailedAllocation calls unallocate, which
+    fires the deallocate handlers once for that task; Commit then does
+    clearOperations and returns the error, so nothing else is undone: tasks
+    bound earlier stay Binding, tasks of later operations stay Allocated, and
+    all of them stay in the ledger. *)
+Inductive event :=
+| Decide (x : step)
+| CommitOk
+| BindFail (tid : positive).
+
+Definition do_event (fuel : nat) (s : state) (e : event) : result state :=
+  match e with
+  | Decide x => do_step fuel s x
+  | CommitOk => Done s
+  | BindFail tid => do_step fuel s (Release tid)
+  end.
+
+Fixpoint run_events (fuel : nat) (s : state) (es : list event) : result state :=
+  match es with
+  | [] => Done s
+  | e :: r => match do_event fuel s e with
+              | Done s1 => run_events fuel s1 r
+              | OutOfFuel => OutOfFuel
+              | Panic => Panic
+              end
+  end.
+
+(** the decisions an event list amounts to *)
+Definition steps_of_event (e : event) : list step :=
+  match e with
+  | Decide x => [x]
+  | CommitOk => []
+  | BindFail tid => [Release tid]
+  end.
+Definition steps_of (es : list event) : list step := flat_map steps_of_event es.
 
 (** the fuel used by the correspondence check and sufficient on every acyclic forest *)
 Definition default_fuel (qs : list queue) : nat := S (length qs).
